@@ -386,8 +386,7 @@ def _run_one(name, path, timeout):
 
 
 def solve_text(text, timeout=20, order=('z3', 'cvc5'), workdir=None, keep=None, get_values=None):
-    """Run the portfolio sequentially (callers parallelise over obligations).
-    Returns the first definite Result; 'unknown' if none."""
+    """Run the portfolio concurrently; the first definite answer wins.  'unknown' if none."""
     d = workdir or tempfile.mkdtemp(prefix='pyvc_')
     path = os.path.join(d, keep or 'q.smt2')
     body = text
@@ -395,23 +394,45 @@ def solve_text(text, timeout=20, order=('z3', 'cvc5'), workdir=None, keep=None, 
         body = text.replace('(check-sat)', '(check-sat)\n(get-value (%s))' % ' '.join(get_values))
     with open(path, 'w') as f:
         f.write(body)
-    last = None
+    procs = []
+    t0 = time.time()
     outs = []
     try:
         for name in order:
-            r = _run_one(name, path, timeout)
-            outs.append('%s: %s' % (name, r.output.strip()[:300]))
-            if r.verdict in ('sat', 'unsat'):
-                if r.verdict == 'sat' and get_values:
-                    r.values = _parse_values(r.output)
-                return r
-            last = r
-        if last is None:
-            last = Result('unknown', '-', 0, '')
-        last.verdict = 'unknown' if last.verdict != 'error' or True else last.verdict
-        last.output = '\n'.join(outs)
-        return last
+            p = subprocess.Popen(SOLVERS[name](path, timeout), stdout=subprocess.PIPE, stderr=subprocess.STDOUT, text=True)
+            procs.append((name, p))
+        pending = list(procs)
+        winner = None
+        while pending and winner is None:
+            for name, p in list(pending):
+                rc = p.poll()
+                if rc is None:
+                    continue
+                pending.remove((name, p))
+                out = p.stdout.read() or ''
+                first = out.strip().split('\n', 1)[0].strip() if out.strip() else ''
+                outs.append('%s: %s' % (name, out.strip()[:300]))
+                if first in ('sat', 'unsat'):
+                    winner = Result(first, name, time.time() - t0, out)
+                    break
+            if winner is None and pending:
+                if time.time() - t0 > timeout + 5:
+                    break
+                time.sleep(0.005)
+        if winner is not None:
+            if winner.verdict == 'sat' and get_values:
+                winner.values = _parse_values(winner.output)
+            return winner
+        return Result('unknown', '-', time.time() - t0, '\n'.join(outs))
     finally:
+        for name, p in procs:
+            if p.poll() is None:
+                p.kill()
+            try:
+                p.stdout.close()
+            except Exception:
+                pass
+            p.wait()
         if workdir is None:
             shutil.rmtree(d, ignore_errors=True)
 
